@@ -325,6 +325,10 @@ func cycleAvoiding(h *ssa.BasicBlock, barrier func(ssa.Instruction) bool) bool {
 }
 
 func cycleAvoidingB(h *ssa.BasicBlock, barrier func(ssa.Instruction) bool, blockBarrier map[*ssa.BasicBlock]bool) bool {
+	return cycleAvoidingE(h, barrier, blockBarrier, nil)
+}
+
+func cycleAvoidingE(h *ssa.BasicBlock, barrier func(ssa.Instruction) bool, blockBarrier map[*ssa.BasicBlock]bool, edgeBarrier map[cfgEdge]bool) bool {
 	// start after the header's own instructions if none is a barrier
 	for _, in := range h.Instrs {
 		if barrier(in) {
@@ -334,7 +338,7 @@ func cycleAvoidingB(h *ssa.BasicBlock, barrier func(ssa.Instruction) bool, block
 	seen := map[*ssa.BasicBlock]bool{}
 	var stack []*ssa.BasicBlock
 	for _, s0 := range h.Succs {
-		if !blockBarrier[s0] {
+		if !blockBarrier[s0] && !edgeBarrier[cfgEdge{h, s0}] {
 			stack = append(stack, s0)
 		}
 	}
@@ -356,7 +360,11 @@ func cycleAvoidingB(h *ssa.BasicBlock, barrier func(ssa.Instruction) bool, block
 			}
 		}
 		if !blocked {
-			stack = append(stack, b.Succs...)
+			for _, s2 := range b.Succs {
+				if !edgeBarrier[cfgEdge{b, s2}] {
+					stack = append(stack, s2)
+				}
+			}
 		}
 	}
 	return false
@@ -487,6 +495,14 @@ func checkProgress(c *Ctx, u *Universe) {
 				R.hold("C05.progress", key, pos, "every cycle consumes an input character (Lexer.Next or a must-advance callee); the loop leaves on the EOF character")
 			case strings.HasSuffix(f.Pkg.Pkg.Path(), "pkg/syntax/zh") && !cycleAvoidingB(h, pg.barrier(f), pg.blockBarriers(f)):
 				R.hold("C05.progress", key, pos, "every cycle consumes a token (next / consume / matched tryConsume / must-advance production) or strictly advances a phase variable")
+			case commentSkipLoop(u, h):
+				// recognised by shape (wherever it lives): each cycle calls NextToken and continues only under
+				// `token.Type == TypeComment`; a comment token is produced only after characters were consumed
+				if msg := progressSide(u, pg, "comment-token-consumes"); msg != "" {
+					R.viol("C05.progress", key, pos, "the argument that this loop terminates no longer applies: "+msg)
+					continue
+				}
+				R.hold("C05.progress", key, pos, "comment-skipping loop: every cycle calls NextToken and repeats only while it yields a comment token, which parseComment produces only after consuming characters (the EOF token is not a comment)")
 			default:
 				if a, ok := allow[key]; ok {
 					if a.Side != "" {
@@ -608,6 +624,67 @@ func checkProgress(c *Ctx, u *Universe) {
 		}
 	}
 	R.count("must_advance_productions", nAdv)
+}
+
+// commentSkipLoop: every cycle through h calls zh.NextToken and traverses the "is a comment" edge of a
+// test `<syntax.Token>.Type ==/!= TypeComment`
+func commentSkipLoop(u *Universe, h *ssa.BasicBlock) bool {
+	f := h.Parent()
+	if f.Pkg == nil || !strings.HasSuffix(f.Pkg.Pkg.Path(), "pkg/syntax/zh") {
+		return false
+	}
+	tc, _ := f.Pkg.Pkg.Scope().Lookup("TypeComment").(*types.Const)
+	if tc == nil {
+		return false
+	}
+	want, exact := constant.Int64Val(tc.Val())
+	if !exact {
+		return false
+	}
+	isTypeOfToken := func(v ssa.Value) bool {
+		switch x := v.(type) {
+		case *ssa.Field:
+			st, ok := x.X.Type().Underlying().(*types.Struct)
+			return ok && st.Field(x.Field).Name() == "Type" && namedTypeIs(x.X.Type(), "pkg/syntax", "Token")
+		case *ssa.UnOp:
+			if fa, ok := x.X.(*ssa.FieldAddr); ok && x.Op == token.MUL {
+				return fieldAddrName(fa) == "Token.Type"
+			}
+		}
+		return false
+	}
+	commentEdges := map[cfgEdge]bool{}
+	for _, b := range f.Blocks {
+		if !h.Dominates(b) {
+			continue
+		}
+		ifi, ok := b.Instrs[len(b.Instrs)-1].(*ssa.If)
+		if !ok {
+			continue
+		}
+		bo, ok := ifi.Cond.(*ssa.BinOp)
+		if !ok || (bo.Op != token.EQL && bo.Op != token.NEQ) {
+			continue
+		}
+		x, y := bo.X, bo.Y
+		if _, isK := x.(*ssa.Const); isK {
+			x, y = y, x
+		}
+		k, isK := y.(*ssa.Const)
+		if !isK || k.Value == nil || k.Value.Kind() != constant.Int || k.Int64() != want || !isTypeOfToken(x) {
+			continue
+		}
+		if bo.Op == token.EQL {
+			commentEdges[cfgEdge{b, b.Succs[0]}] = true
+		} else {
+			commentEdges[cfgEdge{b, b.Succs[1]}] = true
+		}
+	}
+	if len(commentEdges) == 0 {
+		return false
+	}
+	isNextToken := func(in ssa.Instruction) bool { return isCallTo(u, in, "pkg/syntax/zh.NextToken") }
+	return !cycleAvoidingE(h, isNextToken, nil, nil) && !cycleAvoidingE(h, func(ssa.Instruction) bool { return false }, nil, commentEdges)
 }
 
 func countEdges(m map[*ssa.Function][]*ssa.Function) int {
